@@ -218,6 +218,15 @@ class Source:
             if attr(e, "hedId") is not None:
                 pos.append(("hed-id-malformed", f"{kind} {nm}",
                             on_sec(ug, i, lambda r, el: (set_attr(el, "hedId", "HED_12x45"), el.findtext("name"))[1]), (kind, 0)))
+            own = (not self.library) or attr(e, "inLibrary") is not None
+            if attr(e, "hedId") is not None and own:
+                pos.append(("hed-id-out-of-range", f"{kind} {nm}",
+                            on_sec(ug, i, lambda r, el: (set_attr(el, "hedId", "HED_0000001"), el.findtext("name"))[1]), (kind, 0)))
+                pos.append(("hed-id-changed", f"{kind} {nm}", on_sec(ug, i, self.changed_id), (kind, 0)))
+            if e.tag == "unitClassDefinition":
+                # a second definition of the class: name only / name + description / verbatim copy
+                for style in ("bare", "described", "verbatim"):
+                    pos.append(("duplicate-node", f"unit class {nm} ({style})", on_sec(ug, i, self.dup_section(style)), (kind, 0)))
         for tagname, kind in (("unitModifierDefinition", "UnitModifiers"), ("valueClassDefinition", "ValueClasses")):
             g = section(tagname)
             for i, e in enumerate(g(self.root)):
@@ -232,7 +241,56 @@ class Source:
                     pos.append(("allowed-character", f"{kind} {nm}",
                                 on_sec(g, i, lambda r, el: (set_attr(el, "allowedCharacter", "zzchars"), el.findtext("name"))[1]),
                                 (kind, 0)))
+                own = (not self.library) or attr(e, "inLibrary") is not None
+                if attr(e, "hedId") is not None and own:
+                    pos.append(("hed-id-out-of-range", f"{kind} {nm}",
+                                on_sec(g, i, lambda r, el: (set_attr(el, "hedId", "HED_0000001"), el.findtext("name"))[1]),
+                                (kind, 0)))
+                    pos.append(("hed-id-changed", f"{kind} {nm}", on_sec(g, i, self.changed_id), (kind, 0)))
+                for style in ("bare", "verbatim"):
+                    pos.append(("duplicate-node", f"{kind} {nm} ({style})", on_sec(g, i, self.dup_section(style)), (kind, 0)))
+        for tagname, kind in (("schemaAttributeDefinition", "Attributes"), ("propertyDefinition", "Properties")):
+            g = section(tagname)
+            for i, e in enumerate(g(self.root)):
+                nm = e.findtext("name")
+                own = (not self.library) or attr(e, "inLibrary") is not None
+                if attr(e, "hedId") is None and e.find("property[name='hedId']") is None:
+                    pass
+                if self.entry_hed_id(e) is not None and own:
+                    pos.append(("hed-id-changed", f"{kind} {nm}", on_sec(g, i, self.changed_id), (kind, 0)))
         return pos
+
+    @staticmethod
+    def entry_hed_id(e):
+        for tag in ("attribute", "property"):
+            for a in e.findall(tag):
+                if a.findtext("name") == "hedId":
+                    return a
+        return None
+
+    def changed_id(self, root, el):
+        """Give the entry the id of its neighbour +-1 (still inside the range) in a version-bumped successor."""
+        a = self.entry_hed_id(el)
+        old = a.findtext("value")
+        num = int(old[4:])
+        a.find("value").text = "HED_%07d" % (num + 1 if num % 2 == 0 else num - 1)
+        bump(root)
+        return el.findtext("name")
+
+    @staticmethod
+    def dup_section(style):
+        def m(root, el):
+            parent = next(p for p in root.iter() if el in list(p))
+            new = ET.SubElement(parent, el.tag)
+            ET.SubElement(new, "name").text = el.findtext("name")
+            if style == "described":
+                ET.SubElement(new, "description").text = "A second definition."
+            if style == "verbatim":
+                for child in list(el):
+                    if child.tag not in ("name", "unit"):
+                        new.append(copy.deepcopy(child))
+            return el.findtext("name")
+        return m
 
 
 def bump(root):
